@@ -68,6 +68,7 @@ type Task struct {
 	CallIdx int // set by the harness: index of the call the task is executing
 	Panic   any
 	lastSite int
+	noVC    bool // too many library goroutines: scheduled, but no vector clock and no access log
 	Root    int // the root task this goroutine descends from (itself for a caller task)
 	SyncObjs map[any]bool // synchronisation objects touched since the harness last reset it (per call)
 	parent  int
@@ -99,6 +100,7 @@ type Sched struct {
 	Overrun   bool
 	globalSync []uint32
 	wseq      int
+	live           []*Task // tasks that have not finished, in creation order
 	baseGoroutines int
 	UnownedSeen    bool
 	MaxTasks  int // beyond this many tasks, go statements run inline
@@ -145,16 +147,23 @@ func (s *Sched) AddTask(fn func(), order *OrderSource) *Task {
 	t := &Task{ID: len(s.Tasks), Fn: fn, Order: order, wake: make(chan struct{}, 1), parent: -1}
 	t.Root = t.ID
 	s.Tasks = append(s.Tasks, t)
+	s.live = append(s.live, t)
 	return t
 }
 
 func (s *Sched) runnable(except *Task) []*Task {
 	var r []*Task
-	for _, t := range s.Tasks {
+	live := s.live[:0]
+	for _, t := range s.live {
+		if t.state == stDone {
+			continue
+		}
+		live = append(live, t)
 		if t.state == stRunnable && t != except {
 			r = append(r, t)
 		}
 	}
+	s.live = live
 	return r
 }
 
@@ -424,7 +433,7 @@ func SyncOp(site int) {
 
 // Clock returns the task's own logical clock.
 func (t *Task) Clock() uint32 {
-	if t.ID < len(t.vc) {
+	if !t.noVC && t.ID < len(t.vc) {
 		return t.vc[t.ID]
 	}
 	return 0
@@ -479,6 +488,9 @@ func join(dst, src []uint32) {
 }
 
 func (t *Task) release(into *[]uint32) {
+	if t.noVC {
+		return
+	}
 	if *into == nil {
 		*into = make([]uint32, len(t.vc))
 	}
@@ -491,7 +503,11 @@ func (t *Task) release(into *[]uint32) {
 	t.vc[t.ID]++
 }
 
-func (t *Task) acquire(from []uint32) { join(t.vc, from) }
+func (t *Task) acquire(from []uint32) {
+	if !t.noVC {
+		join(t.vc, from)
+	}
+}
 
 // ---- sync shims ----
 
@@ -758,24 +774,29 @@ func Go(site int, f func()) {
 		p := s.cur
 		p.SyncOps++
 		s.GoCalls++
-		if len(s.Tasks) >= s.MaxTasks {
-			// enough internal goroutines are being interleaved already: run this one inline
-			// (the child runs to completion at the go statement - a legal schedule)
-			s.InlineGo++
-			f()
-			return
-		}
 		t := &Task{ID: len(s.Tasks), Fn: f, Order: p.Order, wake: make(chan struct{}, 1), parent: p.ID, CallIdx: p.CallIdx, depth: p.depth, SyncOps: 1, Root: p.Root}
 		s.Tasks = append(s.Tasks, t)
-		// grow vector clocks
-		for _, o := range s.Tasks {
-			for len(o.vc) < len(s.Tasks) {
-				o.vc = append(o.vc, 0)
+		s.live = append(s.live, t)
+		if len(s.Tasks) > s.MaxTasks || p.noVC {
+			// enough goroutines of the library carry vector clocks already (their cost grows with
+			// the square of the task count): this one is scheduled like the others but its
+			// accesses are not logged. (Running it inline at the go statement instead would not
+			// be a legal schedule if its parent holds a lock it needs.)
+			s.InlineGo++
+			t.noVC = true
+		} else {
+			for _, o := range s.Tasks {
+				if o.noVC {
+					continue
+				}
+				for len(o.vc) < len(s.Tasks) {
+					o.vc = append(o.vc, 0)
+				}
 			}
+			copy(t.vc, p.vc)
+			t.vc[t.ID] = 1
+			p.vc[p.ID]++
 		}
-		copy(t.vc, p.vc)
-		t.vc[t.ID] = 1
-		p.vc[p.ID]++
 		s.startGoroutine(t)
 		s.yield(site, 1)
 		return
